@@ -441,3 +441,176 @@ package pipeline
 //@ func (*lowMemoryEventPool).inUse
 //@   pure
 //@   ensures result <= p.capacity
+
+// ---------------------------------------------------------------------------
+// C01 / C02 / C05: processor, finalize, router.
+
+//@ func (*Event).IsTimeoutKind
+//@   pure
+//@   ensures result == (e.kind == EventKindTimeout)
+//@ func (*Event).IsChildKind
+//@   pure
+//@   ensures result == (e.kind == eventKindChild)
+//@ func (*Event).IsUnlockKind
+//@   pure
+//@   ensures result == (e.kind == EventKindUnlock)
+
+// doActions: an event leaves the action chain in exactly one way.  It is
+// finalized at most once, only after an action answered discard / collapse /
+// hold, never notifying the input (so a dropped, merged or held event never
+// moves the input offset) and returning it to the pool for discard and
+// collapse but not for hold; it is reported as passed iff it was not finalized.
+
+//@ func (*processor).doActions
+//@   option allow-exit yes
+//@   ghost res int = 0
+//@   ghost nfin int = 0
+//@   requires event != nil && event.action >= 0
+//@   requires len(p.busyActions) == len(p.actions) && len(p.actionInfos) == len(p.actions)
+//@   ensures result0 == (nfin == 0) && nfin <= 1
+//@   ensures !result0 ==> result1 >= 0
+//@   ensures len(p.busyActions) == len(p.actions) && len(p.actionInfos) == len(p.actions)
+//@   loop 1 invariant 0 <= index && nfin == 0 && l == len(p.actions) && len(p.busyActions) == l && len(p.actionInfos) == l
+//@   callee Do(e) (r)
+//@     requires e == event
+//@     ensures len(p.actions) == old(len(p.actions)) && len(p.busyActions) == old(len(p.busyActions)) && len(p.actionInfos) == old(len(p.actionInfos))
+//@     set res := r
+//@   callee finalize(e, notifyInput, backEvent)
+//@     requires e == event && nfin == 0
+//@     requires !notifyInput
+//@     requires res == ActionDiscard || res == ActionCollapse || res == ActionHold
+//@     requires backEvent == (res != ActionHold)
+//@     preserves processor
+//@     set nfin := nfin + 1
+//@   callee countEvent(e, i, s)
+//@     preserves processor
+//@   callee isMatch(i, e)
+//@     preserves processor
+//@   callee setEventBefore(i, e)
+//@     preserves processor
+//@   callee setEventAfter(i, e, s)
+//@     preserves processor
+//@   callee tryResetBusy(i)
+//@     requires 0 <= i && i < len(p.busyActions)
+//@     ensures len(p.actions) == old(len(p.actions)) && len(p.busyActions) == old(len(p.busyActions)) && len(p.actionInfos) == old(len(p.actionInfos))
+//@   callee tryMarkBusy(i)
+//@     requires 0 <= i && i < len(p.busyActions)
+//@     ensures len(p.actions) == old(len(p.actions)) && len(p.busyActions) == old(len(p.busyActions)) && len(p.actionInfos) == old(len(p.actionInfos))
+
+// processSequence: a passed event is handed to the output exactly once (an
+// unlock event stops the sequence instead); a non-passed event never is.
+
+//@ func (*processor).processSequence
+//@   ghost nout int = 0
+//@   ghost passed bool = false
+//@   ghost unlock bool = false
+//@   requires event != nil && event.action >= 0
+//@   requires len(p.busyActions) == len(p.actions) && len(p.actionInfos) == len(p.actions)
+//@   ensures nout <= 1 && (nout == 1) == (passed && !unlock)
+//@   ensures result == !(passed && unlock)
+//@   callee processEvent(e) (ok, ev)
+//@     ensures ok ==> ev != nil
+//@     set passed := ok
+//@   callee IsUnlockKind() (r)
+//@     pure
+//@     set unlock := r
+//@   callee Out(e)
+//@     requires passed && !unlock && nout == 0 && e == event
+//@     set nout := nout + 1
+
+// processEvent: after a hold / collapse the next event is taken from the same
+// stream the finalized event belonged to (never from another stream).
+
+//@ func (*processor).processEvent
+//@   ghost evstream int = 0
+//@   requires event != nil && event.action >= 0
+//@   requires len(p.busyActions) == len(p.actions) && len(p.actionInfos) == len(p.actions)
+//@   ensures result0 ==> result1 != nil
+//@   loop 1 invariant event != nil && event.action >= 0 && len(p.busyActions) == len(p.actions) && len(p.actionInfos) == len(p.actions)
+//@   setat "passed, lastAction := p.doActions(event)" evstream := ref(event.stream)
+//@   assert at "event = stream.blockGet()" ref(stream) == evstream
+//@   callee doActions(e) (ok, last)
+//@     requires e == event
+//@   callee blockGet() (r)
+//@     preserves processor
+//@     ensures r != nil && r.action >= 0
+//@   callee IsTimeoutKind() (r)
+//@     pure
+//@   callee IsUnlockKind() (r)
+//@     pure
+
+// Propagate: a held event continues with the action after the one that held it.
+
+//@ func (*processor).Propagate
+//@   ghost a0 int = 0
+//@   requires event != nil && event.action >= 0
+//@   requires len(p.busyActions) == len(p.actions) && len(p.actionInfos) == len(p.actions)
+//@   setat "event.action++" a0 := event.action
+//@   callee tryResetBusy(i)
+//@     requires i == a0
+//@     preserves Event
+//@     ensures len(p.actions) == old(len(p.actions)) && len(p.busyActions) == old(len(p.busyActions)) && len(p.actionInfos) == old(len(p.actionInfos))
+//@   callee processSequence(e)
+//@     requires e == event && e.action == a0 + 1
+
+// finalize: the single exit of an event.  Timeout and child events are not
+// accounted.  A regular event notifies the input iff asked to, before the
+// stream's commit, commits on its own stream exactly once, and goes back to the
+// pool exactly once iff backEvent.
+
+//@ func (*Pipeline).finalize
+//@   ghost ncommit int = 0
+//@   ghost nstream int = 0
+//@   ghost nback int = 0
+//@   ghost skip bool = false
+//@   ghost nchild int = 0
+//@   requires event != nil
+//@   setat "if p.eventLogEnabled {" nchild := len(event.children)
+//@   ensures skip ==> ncommit == 0 && nstream == 0 && nback == 0
+//@   ensures !skip ==> ncommit == ite(notifyInput, 1, 0) && nstream == 1 && nback == ite(backEvent, 1, 0)
+//@   setat "if notifyInput {" skip := false
+//@   loop 1 invariant ncommit == ite(notifyInput, 1, 0) && nstream == 1 && nback == 0 && !skip && backEvent && len(event.children) == nchild
+//@   callee IsTimeoutKind() (r)
+//@     pure
+//@     set skip := r
+//@   callee IsChildKind() (r)
+//@     pure
+//@     set skip := skip || r
+//@   callee Commit(e)
+//@     requires e == event && notifyInput && ncommit == 0 && nstream == 0
+//@     set ncommit := ncommit + 1
+//@   callee commit(e)
+//@     requires e == event && nstream == 0 && ncommit == ite(notifyInput, 1, 0)
+//@     set nstream := nstream + 1
+//@   callee back(e)
+//@     requires e == event && backEvent && nback == 0 && nstream == 1
+//@     set nback := nback + 1
+//@   callee Release(r)
+//@     preserves Event
+//@   callee EncodeToString()
+//@     preserves Event
+//@   callee Lock()
+//@     pure
+//@   callee Unlock()
+//@     pure
+
+// Router: a failed event goes to the dead queue iff one is configured, never to
+// the main output; Out goes to the main output.
+
+//@ func (*Router).Fail
+//@   ghost ndq int = 0
+//@   ensures (ndq == 1) == old(r.deadQueue != nil) && ndq <= 1
+//@   callee Out(e)
+//@     requires recv == old(r.deadQueue) && e == event && ndq == 0
+//@     set ndq := ndq + 1
+
+//@ func (*Router).IsDeadQueueAvailable
+//@   pure
+//@   ensures result == (r.deadQueue != nil)
+
+//@ func (*Router).Out
+//@   ghost nout int = 0
+//@   ensures nout == 1
+//@   callee Out(e)
+//@     requires recv == old(r.output) && e == event && nout == 0
+//@     set nout := nout + 1
